@@ -282,6 +282,36 @@ pub fn run_c09(ctx: &Ctx) -> (Report, String) {
     (total, rule_c09())
 }
 
+/// Sample-count ladder: more than 2^24 samples of full-contrast or saturated content, where sums
+/// of samples or of sample differences no longer fit in 32 bits (2^32 / 255 = 16 843 009.0...).
+fn huge_images(ctx: &Ctx, prop: &'static str) -> Report {
+    let mut items: Vec<(usize, usize, usize)> = vec![(16_843_011, 1, 0), (1, 16_843_011, 1), (4099, 4110, 2), (16_843_009, 1, 0), (4104, 4104, 3), (2_105_377, 8, 0), (9, 1_871_446, 1), (4099, 4110, 4)];
+    if ctx.tier == Tier::Thorough {
+        items.extend([(33_686_021, 1, 0), (8200, 8200, 4), (5800, 5801, 2), (3, 11_184_811, 2), (16_843_011, 2, 3), (8421505, 2, 1)]);
+    }
+    let reps = par_shards(items.len(), ctx.threads.min(4), |k| {
+        let (w, h, content) = items[k];
+        let mut rep = Report::new();
+        let mut rng = Rng::new(ctx.seed ^ 0xC16AD, k as u64);
+        let mut d = vec![0u8; w * h];
+        match content {
+            0 => d.iter_mut().enumerate().for_each(|(i, v)| *v = if (i % w) % 2 == 0 { 255 } else { 0 }),
+            1 => d.iter_mut().enumerate().for_each(|(i, v)| *v = if (i / w) % 2 == 0 { 0 } else { 255 }),
+            2 => d.iter_mut().enumerate().for_each(|(i, v)| *v = if (i % w + i / w) % 2 == 0 { 255 } else { 0 }),
+            3 => d.iter_mut().for_each(|v| *v = 255),
+            _ => rng.fill(&mut d),
+        }
+        let s = [12u8, 1, 7, 12][k % 4];
+        rep.evaluations += 1;
+        if compare(&d, w, s, &mut rep, &format!("huge {}x{} strength {} content {}", w, h, s, content), prop) {
+            rep.count("huge_images");
+            rep.distinct.insert(fnv64(&[(w >> 16) as u8, (w >> 8) as u8, w as u8, (h >> 16) as u8, (h >> 8) as u8, h as u8, s, content as u8, 0xee]));
+        }
+        rep
+    });
+    Report::merge_all(reps)
+}
+
 /// Boundary-value ladder for the geometry: one dimension around powers of two up to 2^17 (and a
 /// few large squares), the other small - thresholds a dense small box never reaches.
 fn boundary_images(ctx: &Ctx, prop: &'static str) -> Report {
@@ -378,6 +408,35 @@ pub fn run_c16(ctx: &Ctx) -> (Report, String) {
                 } else {
                     break;
                 }
+                // full-contrast content: one-sample stripes either way and the checkerboard, both polarities -
+                // the largest gradients the filter can meet, at every position of every geometry
+                if ctx.miri() && (w + h) % 5 != 0 {
+                    continue;
+                }
+                let kind = (s as usize + w + h) % 3;
+                let pol = ((w + 2 * h + s as usize) / 3) % 2;
+                let e: Vec<u8> = (0..w * h)
+                    .map(|i| {
+                        let (x, y) = (i % w, i / w);
+                        let bit = match kind {
+                            0 => x % 2,
+                            1 => y % 2,
+                            _ => (x + y) % 2,
+                        };
+                        if bit == pol {
+                            255
+                        } else {
+                            0
+                        }
+                    })
+                    .collect();
+                rep.evaluations += 1;
+                if compare(&e, w, s, &mut rep, &format!("{}x{} strength {} full-contrast content {} polarity {}", w, h, s, kind, pol), "C16") {
+                    rep.count("full_contrast_calls_ok");
+                    rep.count(&format!("full_contrast:strength={}:kind={}", s, kind));
+                } else {
+                    break;
+                }
             }
         }
         rep
@@ -385,6 +444,14 @@ pub fn run_c16(ctx: &Ctx) -> (Report, String) {
     let mut rep = Report::merge_all(reps);
     if !ctx.miri() {
         rep.merge(boundary_images(ctx, "C16"));
+    }
+    if ctx.is_main() {
+        rep.merge(huge_images(ctx, "C16"));
+        rep.require("huge_images", if ctx.tier == Tier::Thorough { 14 } else { 8 });
+        rep.require("full_contrast_calls_ok", (maxd * maxd * 12) as u64);
+        for kind in 0..3 {
+            rep.require(&format!("full_contrast:strength=12:kind={}", kind), 100);
+        }
     }
     // Table J.2
     for q in 1..=31usize {
